@@ -35,5 +35,33 @@ Example C11_nonvacuous :
   /\ last (nth 12 tr []) OPanic = OGauge 0 0 /\ c11_ok 2 (map to_op ops) tr = true.
 Proof. vm_compute. repeat split; reflexivity. Qed.
 
+
+(* ------------------------------------------------------------------------------------------ *)
+(* Server half (model: Server.v; proofs: Server*.v; statements restated from ServerProps.v).
+   From here on unqualified names are the SERVER model's. *)
+From TarpcV Require Import TimerWheel Server ServerMon ServerState ServerFuel ServerProps ServerWitness.
+
+(* Server channel, EVERY transport, configuration and op list: in every reachable state the
+   deadline-timer queue and the request table hold the same ids (no timer-only and no entry-only
+   leak), and the two gauges agree after every op.  (The full monitor - in_flight equals the
+   yielded incarnations not yet answered, cancelled, expired or abandoned, outside the K2 class -
+   is ServerSpec.stmt_s11_rel; it runs on the real traces on every run.) *)
+Theorem C11_server_timers_track_requests : forall (T C : Type) (tp : transport T response cmsg)
+    (ctl : T -> C -> T) (tfuel : T -> nat) (c : cfg) (t0 : T) (ops : list (op C)),
+  let s := snd (run tp ctl tfuel c t0 ops) in
+  map fst (s_timers s) = map e_id (s_inflight s)
+  /\ forallb gauges_agree (fst (run tp ctl tfuel c t0 ops)) = true.
+Proof. exact ServerProps.C11_server_timers_track_requests. Qed.
+
+(* K2 (known finding): at its limit with the sink not ready the limiter does not poll the inner
+   channel, so an expired request stays tracked *)
+Theorem C11_server_K2_witness :
+  c11s_ok k2_cfg k2_ops (tr_of k2_cfg k2_ops) = false
+  /\ c11s_rel_ok k2_cfg k2_ops (tr_of k2_cfg k2_ops) = true
+  /\ limiter_blocked_on_sink k2_cfg k2_ops (tr_of k2_cfg k2_ops) = true.
+Proof. destruct k2_witness as (_ & _ & A & B & C & _). repeat split; assumption. Qed.
+
 Print Assumptions C11_client_bound.
 Print Assumptions C11_client_monitor.
+Print Assumptions C11_server_timers_track_requests.
+Print Assumptions C11_server_K2_witness.
